@@ -82,6 +82,29 @@ def check_one(kind, n, k, full=True):
         for s, l in zip(shards, lists):
             if list(s.items()) != list(zip(s.keys(), l)):
                 raise Violation('items-pairing', f'{kind} n={n} k={k}')
+    # the returned list belongs to the caller: emptying / reordering it must not change later answers
+    if n <= 40:
+        again = ds.split(k)
+        again.reverse()
+        del again[:]
+        third = [list(s) for s in ds.split(k)]
+        if third != lists:
+            raise Violation('split-not-repeatable', f'{kind} n={n} k={k}: after the caller modified the list returned '
+                                                    f'by split(), split() returns {third} instead of {lists}')
+        # integer indexing of every shard: every index in [-len-1, len]
+        for si, sh in enumerate(shards):
+            ln = sizes[si]
+            for j in range(-ln - 1, ln + 1):
+                try:
+                    v = sh[j]
+                except IndexError:
+                    if -ln <= j < ln:
+                        raise Violation('shard-index-raised', f'{kind} n={n} k={k} shard {si}[{j}] raised IndexError')
+                    continue
+                if not -ln <= j < ln:
+                    raise Violation('shard-index-outside', f'{kind} n={n} k={k} shard {si}[{j}] returned {v!r}')
+                if v != lists[si][j]:
+                    raise Violation('shard-index-value', f'{kind} n={n} k={k} shard {si}[{j}] == {v!r}')
     if full:
         # every shard index for n <= 100, a spread of indices beyond (split itself is always checked completely)
         for i in (range(k) if n <= 100 else sorted({0, 1, k // 3, k // 2, k - 2, k - 1} & set(range(k)))):
